@@ -455,9 +455,11 @@ def run_point(ctx, R, zoo, tpl, kd, prefix, tail, D_ok, point, kind, commit_firs
                 elif st._deleted:
                     # state predicates only (no lifecycle listener is registered on this session)
                     vio("transient-object-keeps-deleted-flag-after-rollback", f"{type(o).__name__} slot {slot} was INSERTed and DELETEd in the rolled-back transaction; it is transient but inspect().was_deleted is still True", {"slot": slot})
-                elif not {kk for kk in st.dict if not kk.startswith("_")} and point[0] == "life":
-                    vio("failed-lifecycle-listener-wipes-transient-object", f"{type(o).__name__} slot {slot} is transient after rollback but its attributes are gone (expired through a stale identity-map entry)", {"slot": slot})
-                    return   # the identity map still holds that state: everything below only repeats it
+                elif any(s2 is st for s2 in rig.session.identity_map.all_states()):
+                    # (an empty __dict__ alone proves nothing: an object INSERTed before a SAVEPOINT and
+                    # modified inside it is expired by the savepoint rollback, then made transient)
+                    vio("failed-lifecycle-listener-wipes-transient-object", f"{type(o).__name__} slot {slot} is transient after rollback but the identity map still holds its state (its attributes get expired through that stale entry)", {"slot": slot})
+                    return   # everything below only repeats it
             elif pre_kind.get(id(o)) == "persistent":
                 if any(o is x for x in tail_deleted):
                     ctx.count("deleted_objects_checked_persistent_again")
